@@ -1333,6 +1333,11 @@ class ContactHandler(Messenger, dbus.service.Object):
     def recv_xfer_ack(self, transfer_id, flags, length):
         Messenger.recv_xfer_ack(self, transfer_id, flags, length)
 
+        item = self._tx_map.get(transfer_id)
+        if item is None or item in self._tx_pend_start:
+            # Not one of our transfers (or already finished, or not started)
+            raise RejectError(messages.RejectMsg.Reason.UNEXPECTED)
+
         if self._config.modulate_target_ack_time is not None:
             delta_b = length - self._segment_last_ack_len
             self._segment_last_ack_len = length
@@ -1344,10 +1349,6 @@ class ContactHandler(Messenger, dbus.service.Object):
 
                 self._modulate_tx_seg_size(delta_b, delta_t)
 
-        item = self._tx_map.get(transfer_id)
-        if item is None:
-            # Not one of our transfers (or already finished)
-            raise RejectError(messages.RejectMsg.Reason.UNEXPECTED)
         item.ack_length = length
         if flags & messages.TransferSegment.Flag.END:
             if not self._do_send_ack_final or item not in self._tx_pend_ack:
